@@ -90,10 +90,12 @@ theorem filterGo_case (st : FState) (acc : Str) (j i : Nat) (l1 l2 : Str)
       split
       · rfl
       · split
-        · by_cases hb : b > 126
-          · simp [hb, hgt'.2 hb]
-          · have ha : ¬ a > 126 := fun hh => hb (hgt'.1 hh)
-            simp only [ha, hb, if_false]; exact ih _ _ _ _ _ hrest
+        · split
+          · rfl
+          · by_cases hb : b > 126
+            · simp [hb, hgt'.2 hb]
+            · have ha : ¬ a > 126 := fun hh => hb (hgt'.1 hh)
+              simp only [ha, hb, if_false]; exact ih _ _ _ _ _ hrest
         · by_cases hb : b > 126
           · simp [hb, hgt'.2 hb]
           · have ha : ¬ a > 126 := fun hh => hb (hgt'.1 hh)
@@ -114,7 +116,9 @@ theorem filterGo_comment (st : FState) (acc : Str) (j i : Nat) (l : Str) (c : Na
     · split
       · split
         · rfl
-        · exact ih _ _ _ _
+        · split
+          · rfl
+          · exact ih _ _ _ _
       · split
         · rfl
         · exact ih _ _ _ _
@@ -123,26 +127,22 @@ theorem filterGo_comment (st : FState) (acc : Str) (j i : Nat) (l : Str) (c : Na
 def isBlank (c : Nat) : Bool := c == 32 || c == 9
 
 /-- in the operand part (state SPACE_FOUND) blanks are dropped -/
-theorem filterGo_blank (acc : Str) (j i : Nat) (b : Nat) (cs : Str) (hb : isBlank b = true)
-    (hj : j < maxFiltered) :
+theorem filterGo_blank (acc : Str) (j i : Nat) (b : Nat) (cs : Str) (hb : isBlank b = true) :
     filterGo .spaceFound acc j i (b :: cs) = filterGo .spaceFound acc j (i + 1) cs := by
   have hb' : b = 32 ∨ b = 9 := by simpa [isBlank] using hb
   have hs : stopCh b = false := by rcases hb' with rfl | rfl <;> decide
   have hst : filterStep .spaceFound b = (.spaceFound, none) := by rcases hb' with rfl | rfl <;> decide
   have h126 : ¬ b > 126 := by rcases hb' with rfl | rfl <;> decide
-  have hjj : ¬ j ≥ maxFiltered := by omega
-  simp [filterGo, hs, hst, h126, hjj]
+  simp [filterGo, hs, hst, h126]
 
 /-- leading bytes that cannot start a mnemonic are skipped (state BEGIN) -/
-theorem filterGo_leading (acc : Str) (j i : Nat) (b : Nat) (cs : Str) (hb : isBlank b = true)
-    (hj : j < maxFiltered) :
+theorem filterGo_leading (acc : Str) (j i : Nat) (b : Nat) (cs : Str) (hb : isBlank b = true) :
     filterGo .begin acc j i (b :: cs) = filterGo .begin acc j (i + 1) cs := by
   have hb' : b = 32 ∨ b = 9 := by simpa [isBlank] using hb
   have hs : stopCh b = false := by rcases hb' with rfl | rfl <;> decide
   have hst : filterStep .begin b = (.begin, none) := by rcases hb' with rfl | rfl <;> decide
   have h126 : ¬ b > 126 := by rcases hb' with rfl | rfl <;> decide
-  have hjj : ¬ j ≥ maxFiltered := by omega
-  simp [filterGo, hs, hst, h126, hjj]
+  simp [filterGo, hs, hst, h126]
 
 /-- the per-line result depends on the text only through what the filter returns -/
 theorem assembleLine_of_filter (opt : Nat) (t1 t2 : Str)
@@ -183,16 +183,7 @@ theorem filterGo_deblank (acc : Str) (j i i' : Nat) (ops : Str) :
   | cons c cs ih =>
     by_cases hb : isBlank c = true
     · simp only [List.filter_cons, hb, Bool.not_true, Bool.false_eq_true, if_false]
-      by_cases hj : j < maxFiltered
-      · rw [filterGo_blank acc j i c cs hb hj]; exact ih _ _ _ _
-      · -- the buffer is full: the filter stops here, with or without the blank
-        have hjj : j ≥ maxFiltered := by omega
-        have e1 : filterGo .spaceFound acc j i (c :: cs) = some (acc.reverse, i) := by
-          simp [filterGo, hjj]
-        rw [e1]
-        cases hf : cs.filter (fun c => !isBlank c) with
-        | nil => simp [filterGo]
-        | cons d ds => simp [filterGo, hjj]
+      rw [filterGo_blank acc j i c cs hb]; exact ih _ _ _ _
     · have hb' : (!isBlank c) = true := by simpa using hb
       have hst : (filterStep .spaceFound c).1 = .spaceFound := by
         simp only [filterStep]; split <;> rfl
@@ -213,6 +204,8 @@ theorem filterGo_deblank (acc : Str) (j i i' : Nat) (ops : Str) :
           simp only
           split
           · rfl
-          · exact ih _ _ _ _
+          · split
+            · rfl
+            · exact ih _ _ _ _
 
 end AL.Lemmas
